@@ -591,7 +591,7 @@ func extractXMLDataField(parsedFieldBytes *TagValue, buffer []byte, dataLen int)
 		return
 	}
 	endIndex += dataLen + 1
-	if dataLen < 0 || endIndex >= len(buffer) {
+	if dataLen < 0 || endIndex < 0 || endIndex >= len(buffer) {
 		err = parseError{OrigError: "extractXMLDataField: data length exceeds message in " + string(buffer)}
 		remBytes = buffer
 		return
